@@ -17,7 +17,7 @@ def shard_jobs(prop, seed, engine_args, shards, budget_s, label, variant="native
         if extra:
             args += extra[i % len(extra)]
         j = dict(variant=variant, args=args, label="%s-%s-%s-%d" % (prop, label, variant, i),
-                 timeout=int(budget_s * SCALE) + 120)
+                 timeout=int(budget_s * SCALE) + 200)
         j.update(kw)
         jobs.append(j)
     return jobs
